@@ -59,7 +59,7 @@ func genC03Program(r *R, ex map[string]bool) *Program {
 	ctx := defaultCtx(r)
 	ctx.M = append(ctx.M,
 		KV{"d1", &Val{T: "time", I: 1709647629 + int64(r.N(400))*86400*3 + int64(r.N(86400))}},
-		KV{"d2", &Val{T: "str", S: pick(r, []string{"2024-03-05 14:07:09", "2021-12-25", "2023-07-04T09:08:07Z", "1709647629"})}},
+		KV{"d2", &Val{T: "str", S: pick(r, []string{"2024-03-05 14:07:09", "2021-12-25", "2023-07-04T09:08:07Z", "1709647629", "03/04/2024", "03/04/2024 10:11:12", "12/11/2023", "2024-04-03T02:01:00+02:00"})}}, // only strings the engine can parse: an unparseable date falls back to the current time, which is exempt
 		KV{"nm", &Val{T: "map", M: []KV{
 			{"b", &Val{T: "map", M: []KV{{"y", &Val{T: "int", I: 2}}, {"x", &Val{T: "int", I: 1}}, {"z", &Val{T: "int", I: 3}}}}},
 			{"a", &Val{T: "list", L: []*Val{{T: "int", I: 1}, {T: "map", M: []KV{{"q", &Val{T: "str", S: "Q"}}, {"p", &Val{T: "str", S: "P"}}}}}}},
@@ -98,7 +98,7 @@ func genC03Program(r *R, ex map[string]bool) *Program {
 		return pick(r, maps)
 	}
 	seg := func() string {
-		switch r.N(19) {
+		switch r.N(20) {
 		case 0, 1:
 			return "{% for k, v in " + anyMap() + " %}{{ k }}={{ v|json_encode }}|{{ loop.index }};{% endfor %}"
 		case 2:
@@ -141,6 +141,9 @@ func genC03Program(r *R, ex map[string]bool) *Program {
 			return "{% for k, v in " + pick(r, maps) + " %}{% for k2, v2 in " + pick(r, maps) + " %}{{ k }}{{ k2 }}{% endfor %}/{% endfor %}"
 		case 12:
 			return "{{ " + pick(r, maps) + "|json_encode }}"
+		case 18:
+			// dot access / subscripts with spellings that match several keys only after case folding or trimming
+			return "{{ " + pick(r, []string{"cs.accept", "cs.aCCEPT", "cs.Accept", "cs['ACCEPT']", "cs.b", "cs.B", "cs2.KEY", "cs2.key", "cs2['Key']", "m1.K1", "cs[' b']", "cs2['1']", "cs2['01']", "mx['10']", "mx[10]"}) + "|default('-') }}"
 		case 14:
 			// `with` values that refer to other keys of the same hash (and to outer variables of the same name)
 			return "{% set a = 'A0' %}{% set b = 'B0' %}{% include 'part0' with {'a': 1, 'b': a, 'c': b, 'd': c|default('x')} %}"
